@@ -318,12 +318,15 @@ def place_step(run):
     bv0, _, dom = sym_builder(prog, 'b')
     sets = {n: z3.BitVec('s_' + n, 64) for n in SETS}
     idx = z3.BitVec('idx', 64)
-    c = z3.BitVec('chr', 32)
     r, f = z3.BitVec('ref_rank', 64), z3.BitVec('ref_file', 64)
     missing = [n for n in SETS + ['idx', 'iter', 'builder'] if n not in dbg]
     if missing:
         run.inconclusive.append('%s: loop state variables not found in the MIR debug info: %s' % (name, missing))
         return
+    # the reader may walk chars or bytes: the element width follows the iterator's type
+    ity = item.locals.get(dbg['iter'], '')
+    W = 8 if ('Bytes' in ity or 'u8' in ity) else 32
+    c = z3.BitVec('chr', W)
     locals_ = {dbg[n]: sets[n] for n in SETS}
     locals_[dbg['idx']] = idx
     locals_[dbg['iter']] = IterV(((True, c),))
@@ -336,7 +339,7 @@ def place_step(run):
     pre = dom + [z3.ULE(r, 7), z3.ULE(f, 8), idx == 8 * (7 - r) + f]
     is_piece = z3.Or(*[c == ord(ch) for ch in PIECE_CHARS])
     is_digit = z3.And(z3.UGE(c, ord('1')), z3.ULE(c, ord('8')))
-    d = z3.ZeroExt(32, c) - 48
+    d = z3.ZeroExt(64 - W, c) - 48
     valid = z3.Or(z3.And(is_piece, z3.ULT(f, 8)), z3.And(is_digit, z3.ULE(f + d, 8)), z3.And(c == ord('/'), f == 8, z3.UGE(r, 1)))
     pre.append(valid)
     for p in pre:
